@@ -52,6 +52,7 @@ type Scenario struct {
 	SkewS      int              `json:"skew_s,omitempty"`      // scripted sender: its clock is this many seconds off the receiver's (ahead when positive) - inside the fudge unless a fault plan says otherwise
 	EmptyKeys  bool             `json:"empty_keys,omitempty"`  // the receiver has TSIG switched on (a non-nil secret map) but holds no key: no envelope can verify
 	Dial       string           `json:"dial,omitempty"`        // "" a preset connection | ok | refused : Transfer.In makes the connection itself (socket seam of the instrumented build; a preset connection elsewhere)
+	Hijack     bool             `json:"hijack,omitempty"`      // sender "out": the handler takes the connection over (Hijack), returns, and Transfer.Out carries on from another task - while a bystander asks the same server ordinary questions over connections of its own
 	OutPaceMs  int              `json:"out_pace_ms,omitempty"` // sender "out": the application hands Transfer.Out one envelope every so often; with a fudge of 5 s the whole transfer takes longer than the fudge
 	PaceMs     int              `json:"pace_ms,omitempty"`     // scripted sender: pause between envelopes (shorter than the read timeout; the whole transfer may take much longer than it)
 	BadFirst   bool             `json:"bad_first,omitempty"`   // scripted: the sequence does not start with an SOA
@@ -144,6 +145,7 @@ func Gen(seed uint64, tier string) any {
 	if core.Chance(r, 20) {
 		sc.ConsumerMs = core.Pick(r, 1, sc.TimeoutMs/2, sc.TimeoutMs+100, 3*sc.TimeoutMs)
 	}
+	sc.Hijack = sc.Sender == "out" && core.Chance(r, 25)
 	if sc.Sender == "out" && sc.Alg != "" && sc.ConsumerMs == 0 && sc.PaceMs == 0 && core.Chance(r, 25) {
 		sc.OutPaceMs = core.Pick(r, 1500, 2500, 4000)
 		sc.Fudge, sc.TimeoutMs, sc.DefTimeout = 5, 8000, false
@@ -739,6 +741,84 @@ func readFull(c *simnet.StreamConn, p []byte) bool {
 //
 //go:norace
 func (x *run) ServeDNS(w dns.ResponseWriter, r *dns.Msg) {
+	if len(r.Question) == 1 && r.Question[0].Qtype == dns.TypeA {
+		// the bystander's question
+		m := new(dns.Msg)
+		m.SetReply(r)
+		m.Answer = append(m.Answer, &dns.A{Hdr: dns.RR_Header{Name: r.Question[0].Name, Rrtype: dns.TypeA, Class: dns.ClassINET, Ttl: 1}, A: []byte{192, 0, 2, 77}})
+		w.WriteMsg(m)
+		return
+	}
+	if x.sc.Hijack && x.sc.Sender == "out" {
+		// the connection is the application's from here on: the zone is sent from a task of its own
+		w.Hijack()
+		x.k.Go("out", &outTask{x, w, r})
+		x.k.Bump("fault.transfer_out_after_hijack")
+		return
+	}
+	x.serveTransfer(w, r)
+}
+
+// outTask runs Transfer.Out on a hijacked connection and closes it when the zone has been written.
+type outTask struct {
+	x *run
+	w dns.ResponseWriter
+	r *dns.Msg
+}
+
+//go:norace
+func (o *outTask) RunEvent(time.Time) {
+	o.x.k.Yield("out.start", 0)
+	o.x.serveTransfer(o.w, o.r)
+	// the application's connection: it closes it when it is done - the socket itself, not through the writer
+	// (on the pinned tree ResponseWriter.Close from another goroutine than the handler's races with the server's
+	// look at the writer after the handler has returned; no listed statement is about that)
+	ra := o.w.RemoteAddr().String()
+	o.x.k.Lock()
+	var sock *simnet.StreamConn
+	for _, c := range o.x.n.Conns {
+		if c.Role == "srv" && c.RemoteAddr().String() == ra {
+			sock = c
+		}
+	}
+	o.x.k.Unlock()
+	if sock != nil {
+		sock.Close()
+	}
+}
+
+// bystander asks the server ordinary questions over connections of its own while the transfer runs.
+type bystander struct{ x *run }
+
+//go:norace
+func (b *bystander) RunEvent(time.Time) {
+	x, k := b.x, b.x.k
+	for i := 0; i < 3; i++ {
+		k.WaitSteps("bystander.wait", 2+i, 5*time.Millisecond)
+		if k.Aborting() || x.l.IsClosed() {
+			return
+		}
+		c := x.n.Dial(x.l, false)
+		co := &dns.Conn{Conn: c}
+		c.SetDeadline(time.Now().Add(5 * time.Second))
+		q := new(dns.Msg)
+		q.SetQuestion("bystander"+strconv.Itoa(i)+"."+zone, dns.TypeA)
+		if co.WriteMsg(q) == nil {
+			if rep, err := co.ReadMsg(); err == nil {
+				k.Lock()
+				x.res.Stats["oracle.T1_bystander_served"]++
+				if rep.Id != q.Id || len(rep.Answer) != 1 || len(rep.Question) != 1 || rep.Question[0].Name != q.Question[0].Name {
+					x.res.Fail("T1", "bystander-got-foreign-octets", "a client that asked %s on a connection of its own, while a transfer was being sent on another, received: %s", q.Question[0].Name, strings.ReplaceAll(rep.String(), "\n", " | "))
+				}
+				k.Unlock()
+			}
+		}
+		co.Close()
+	}
+}
+
+//go:norace
+func (x *run) serveTransfer(w dns.ResponseWriter, r *dns.Msg) {
 	envs := envelopes(x.sc)
 	ch := make(chan *dns.Envelope, len(envs))
 	if x.sc.OutPaceMs > 0 {
@@ -902,6 +982,9 @@ func runIn(sc *Scenario, res *core.Result, verbose bool) {
 		}
 		relayS = n.Dial(x.l, true)
 		k.Go("serve", serveTask{x})
+		if sc.Hijack {
+			k.Go("bystander", &bystander{x})
+		}
 	} else {
 		var snd *simnet.StreamConn
 		relayS, snd = n.Pair(true)
